@@ -61,9 +61,10 @@ theorem C13_json_same (t : Ty) (v : Val) (h : HasTy t v) (a : Any) (ha : ofVal t
     toJson a = ser .json t v := anyJson h a ha
 
 /-- **JSON in, JSON out**: any JSON document parsed into the dynamic representation re-serializes to
-    the same document -/
-theorem C13_json_any_json (d : Doc) (hc : JsonClean d) (a : Any) (ha : ofJson d = some a) :
-    toJson a = some d := jsonAnyJson d hc a ha
+    the same document (for a document that names a member twice, to the document every reader sees: the later
+    member stays — `ofJsonM`) -/
+theorem C13_json_any_json (d : Doc) (hc : JsonClean d) (hd : DistinctKeys d) (a : Any) (ha : ofJson d = some a) :
+    toJson a = some d := jsonAnyJson d hc hd a ha
 
 /-- **view (coercions)**: the JSON coercions are those of direct parsing — doubles from the three
     names, binary from Base64, bool / numeric / uuid keys from their string form -/
